@@ -87,6 +87,8 @@ Definition fanout (m : mst) (sf : lfeat) (fn v : N) : list obs :=
 
 Definition check (b : bool) (c : Z) : verdict := if b then [] else [c].
 
+Fixpoint nodupb (l : list N) : bool := match l with [] => true | x :: r => negb (memN x r) && nodupb r end.
+
 (* no notification and no subscription event *)
 Definition quiet (out : list obs) : verdict :=
   check (negb (existsb is_notify out) && negb (existsb is_sub_event out)) CL_STRAY.
@@ -105,7 +107,7 @@ Definition grant (m : mst) (pe : peer) (c : reg_call) : option (lfeat * rent * f
       let cli := rf_addr en rf in
       if role_type_ok (lf_role sf) (lf_type sf) RServer t &&
          role_type_ok (rf_role rf) (rf_type rf) RClient t &&
-         negb (existsb (eqb_sentry {| s_srv := (lf_ent sf, lf_id sf); s_ski := p_ski pe; s_cli := cli |}) (reg m))
+         negb (existsb (fun y => eqb_sentry y {| s_srv := (lf_ent sf, lf_id sf); s_ski := p_ski pe; s_cli := cli |}) (reg m))
       then Some (sf, en, cli) else None
   | _, _, _ => None
   end.
@@ -115,6 +117,15 @@ Definition expect_result (p ctr : N) (ack err : bool) : list (N * N * bool) :=
 
 (* the world copy follows the model; the registry follows the rules *)
 Definition advance (m : mst) (o : op) (r : list sentry) : mst := {| w := fst (step (w m) o); reg := r |}.
+
+Definition entries_seen (p : N) (out : list obs) : list sentry :=
+  flat_map (fun x => match x with
+                     | OEntry _ srv cli => [ {| s_srv := (fa_ent srv, match fa_feat srv with Some f => f | None => 0%N end);
+                                               s_ski := p; s_cli := cli |} ]
+                     | _ => []
+                     end) out.
+Definition ids_seen (out : list obs) : list N := flat_map (fun x => match x with OEntry id _ _ => [id] | _ => [] end) out.
+Definition is_ev_data (x : obs) : bool := match x with OEvent EvData _ _ _ _ _ => true | _ => false end.
 
 Definition mon (m : mst) (o : op) (out : list obs) : mst * verdict :=
   match o with
@@ -177,7 +188,7 @@ Definition mon (m : mst) (o : op) (out : list obs) : mst * verdict :=
   | Write p ctr ack src dst fn v =>
       (* whether the write is authorised is C03's business: read it off the world copy *)
       let '(w1, mout) := step (w m) o in
-      let accepted := existsb (fun x => match x with OEvent EvData _ _ _ _ _ => true | _ => false end) mout in
+      let accepted := existsb is_ev_data mout in
       (advance m o (reg m),
        check (same_multiset eqb_obs_notify
                 (match accepted, local_feature (w m) dst with
@@ -188,17 +199,13 @@ Definition mon (m : mst) (o : op) (out : list obs) : mst * verdict :=
        check (negb (existsb is_sub_event out)) CL_STRAY)
   | ListSubs p =>
       let mine := filter (fun x => N.eqb (s_ski x) p) (reg m) in
-      let seen := flat_map (fun x => match x with
-                                     | OEntry _ srv cli => [ {| s_srv := (fa_ent srv, match fa_feat srv with Some f => f | None => 0%N end);
-                                                               s_ski := p; s_cli := cli |} ]
-                                     | _ => []
-                                     end) out in
-      let ids := flat_map (fun x => match x with OEntry id _ _ => [id] | _ => [] end) out in
+      let seen := entries_seen p out in
+      let ids := ids_seen out in
       (advance m o (reg m),
        check (same_multiset eqb_sentry mine seen &&
               Nat.eqb (length out) (length seen) &&
               forallb (fun x => match x with OEntry _ srv _ => eqb_optN (fa_dev srv) (Some LOCAL_DEV) | _ => true end) out &&
-              (fix nodup (l : list N) := match l with [] => true | x :: r => negb (memN x r) && nodup r end) ids)
+              nodupb ids)
              CL_LISTING)
   | Disconnect p | Connect p =>
       (* teardown (a reconnect tears the old connection down first) removes the peer's entries;
